@@ -35,7 +35,7 @@ from .common import V
 ID = "C35"
 MAX_WORKERS = {"quick": 6}  # importing tiled (dask, pandas, pyarrow) in 16 processes at once takes ~20 s
 TITLE = "Document normalization never alters its inputs and loses nothing"
-ENGINE = "re_sim+callback"
+ENGINE = "re_sim"
 QUICK = {"batches": 1200, "wall": 50.0}
 THOROUGH = {"batches": 40000, "wall": 900.0}
 COMPONENTS_REAL = [
